@@ -105,6 +105,37 @@ func main() {
 	whole("gc", "project.go", "Project.GC")
 	whole("link", "project.go", "Project.link")
 	whole("run", "project.go", "Project.Run")
+	// RunOptions.apply: the whole body, and — as a named fact — the fields assigned on the nil-options path and on the
+	// other path (the model's `applyOptions` resets BOTH flags for nil options)
+	whole("applyOptions", "project.go", "RunOptions.apply")
+	var nilAssigns, setAssigns []string
+	if fd := files["project.go"].Func("RunOptions.apply"); fd != nil {
+		fields := func(b *ast.BlockStmt, into *[]string) {
+			for _, st := range b.List {
+				if as, ok := st.(*ast.AssignStmt); ok {
+					for _, l := range as.Lhs {
+						if sel, ok := l.(*ast.SelectorExpr); ok {
+							*into = append(*into, lib.LeanString(sel.Sel.Name))
+						}
+					}
+				}
+			}
+		}
+		for _, st := range fd.Body.List {
+			if ifs, ok := st.(*ast.IfStmt); ok {
+				if be, ok := ifs.Cond.(*ast.BinaryExpr); ok && be.Op == token.EQL {
+					if id, ok := be.Y.(*ast.Ident); ok && id.Name == "nil" {
+						fields(ifs.Body, &nilAssigns)
+					}
+				}
+			}
+		}
+		fields(fd.Body, &setAssigns)
+	} else {
+		o.Fail("func RunOptions.apply not found")
+	}
+	o.Def("applyNilAssigns", "List String", "["+strings.Join(nilAssigns, ", ")+"]")
+	o.Def("applySetAssigns", "List String", "["+strings.Join(setAssigns, ", ")+"]")
 	whole("saveIndex", "project_index.go", "Project.saveIndex")
 	whole("indexInfo", "project_index.go", "indexTarget.info")
 	if fd := files["project.go"].Func("targetInfo.stamp"); fd != nil {
